@@ -4,7 +4,7 @@
 //!   pep   := h:seq [n u32 mod…] opt(u32 nterm) opt(u32 cterm) u32(monoisotopic) decoy(0/1)
 //!   peak  := u32(mass) u32(intensity)         (mass = m/z − PROTON: a ProcessedSpectrum<Peak> is built directly)
 //!
-//!   search [k kind…] min_ion_index bucket [p pep…]  tol(fragment) tol(precursor) opt(max_fragment_charge)
+//!   psmsearch [k kind…] min_ion_index bucket [p pep…]  tol(fragment) tol(precursor) opt(max_fragment_charge)
 //!          min_isotope_err max_isotope_err min_precursor_charge max_precursor_charge override_precursor_charge
 //!          chimera wide_window report_psms min_matched_peaks
 //!          u32(precursor m/z) opt(precursor charge) opt(tol isolation window) [n peak…]
@@ -26,7 +26,7 @@ use sage_core::scoring::{Feature, ScoreType, Scorer};
 use sage_core::spectrum::{Peak, Precursor, ProcessedSpectrum};
 use std::sync::Arc;
 
-pub const OPS: &[&str] = &["search"];
+pub const OPS: &[&str] = &["psmsearch"];
 pub const INFO: Info = Info {
     rule: "search: (a) small databases of 1-12 synthetic peptides (length 3..16 over VALID_AA, some modified, isobaric \
            permutations and I/L twins, targets and decoys, ascending mass); (b) large databases of 60-220 near-isobaric \
@@ -180,7 +180,7 @@ struct Req {
 impl Req {
     fn line(&self) -> String {
         let mut o = Out::new();
-        o.raw("search").n(self.kinds.len());
+        o.raw("psmsearch").n(self.kinds.len());
         for &k in &self.kinds {
             o.n(k);
         }
@@ -330,7 +330,7 @@ fn canon64(x: f64) -> u64 {
 
 pub fn exec(op: &str, t: &mut Toks) -> Option<String> {
     match op {
-        "search" => {
+        "psmsearch" => {
             let feats = run_search(t)?;
             let mut o = Out::new();
             o.n(feats.len());
